@@ -52,7 +52,16 @@ def run_scenario(task):
     sim, w, st0, p, full = task["sim"], task["w"], tuple(task["st0"]), task["p"], task["full"]
     n = len(st0)
     nodes = list(range(1, n + 1))
-    G = build_graph(n, w, [1] * n)
+    if task.get("directed"):
+        import networkx as nx
+        G = nx.DiGraph()
+        G.add_nodes_from(nodes)
+        arcs = [(u, v) for u in nodes for v in nodes if u != v]       # lexicographic, as DPairIdx in the specification
+        for (u, v), x in zip(arcs, w):
+            if x:
+                G.add_edge(u, v)
+    else:
+        G = build_graph(n, w, [1] * n)
     I0 = [u for u in nodes if st0[u - 1] == "I"]
     R0 = [u for u in nodes if st0[u - 1] == "R"]
     sis = sim == "basic_discrete_SIS"
